@@ -212,6 +212,59 @@ def h_replace_same_len(n: int, k: int, s1: int, r1: int, s2: int, r2: int, cnt: 
     return True
 
 
+HIST_TEXTS = ('-bcde', 'a-b-c')
+
+
+def h_replace_hist(ti: int, r1: int, r2: int, form: int):
+    """Receivers with a hole: a setting applied on a range and removed again on an inner range (stopped and re-started),
+    then replace('-', ...) with a plain str / an AnsiString that itself has such a hole."""
+    t = choose(ti, HIST_TEXTS)
+    if t is None:
+        return None
+    n = len(t)
+    ra = choose(r1, ranges(n))
+    if ra is None:
+        return None
+    rb = choose(r2, ranges(n))
+    if rb is None:
+        return None
+    f = pick(form, 0, 2)
+    if f is None:
+        return None
+    s = AnsiString(t)
+    s.apply_formatting('bold', ra[0], ra[1])
+    s.remove_formatting('bold', rb[0], rb[1])
+    tab = S(s, n)
+    if f == 0:
+        new, new_text, new_tab = 'y', 'y', None
+    elif f == 1:
+        new = AnsiString('XYZ', 'bold')
+        new.remove_formatting('bold', 1, 2)
+        new_text, new_tab = 'XYZ', [['1'], [], ['1']]
+    else:
+        new = AnsiStr('XYZ', 'bold').remove_formatting('bold', 1, 2)
+        new_text, new_tab = 'XYZ', [['1'], [], ['1']]
+    res = s.replace('-', new)
+    exp_text = t.replace('-', new_text)
+    if res.base_str != exp_text:
+        return ('replace-text', res.base_str, exp_text)
+    exp_tab = []
+    for i, ch in enumerate(t):
+        if ch == '-':
+            for j in range(len(new_text)):
+                exp_tab.append(tab[i] if new_tab is None else new_tab[j])
+        else:
+            exp_tab.append(tab[i])
+    got = S(res, len(exp_text))
+    for i in range(len(exp_text)):
+        if not term.same(got[i], exp_tab[i]):
+            return ('replace-style', t, i, got[i], exp_tab[i], 'history', f)
+    if any(tab[i] and not tab[i + 1] and any(tab[i + 2:]) for i in range(n - 2)):
+        cover('hole')
+    cover('replaced')
+    return True
+
+
 def h_case(n: int, p1: int, p2: int, p3: int, k: int, s1: int, r1: int, s2: int, r2: int, m: int):
     pal = ('a', 'Z', ' ', '1', 'é', 'ǅ')
     t = ''
@@ -374,6 +427,9 @@ def obligations(tier):
         obs.append(Ob('assign/n%d' % n, h_assign, dict(n=n, k=2 if n else 0, **({} if n else dict(s1=0, r1=0, **z1))),
                       need=('longer',) + (('shorter',) if n else ()), budget=600,
                       bounds='n=%d -> 0..n+2, 2 apply steps' % n, kinds=KINDS))
+    for ti in range(len(HIST_TEXTS)):
+        obs.append(Ob('replace/history/t%d' % ti, h_replace_hist, dict(ti=ti), need=('replaced', 'hole'), budget=900,
+                      bounds='text %r: bold on any range, removed again on any range (hole), replace of "-" by plain / AnsiString / AnsiStr replacement with a hole' % HIST_TEXTS[ti], kinds=KINDS))
     for n in (2, 3, 4):
         obs.append(Ob('replace/same-length/n%d' % n, h_replace_same_len, dict(n=n, k=2), need=('nonuniform',), budget=600,
                       bounds='whole-text match of length %d replaced by a plain str of the same length, 2 apply steps' % n, kinds=KINDS))
